@@ -424,6 +424,9 @@ func (w *Writer) WriteThrough(p []byte) (n int, err error) {
 
 // ReadFrom implements io.ReaderFrom.
 func (w *Writer) ReadFrom(src io.Reader) (n int64, err error) {
+	if w.err != nil {
+		return 0, w.err
+	}
 	var nn int
 	for err == nil {
 		if w.Available() == 0 {
